@@ -9,6 +9,7 @@
   (`base = 0`: freshly dialled).  Histories are lists of events, newest first.
 -/
 import MosVerif.Lemmas.PipelineRun
+import MosVerif.Lemmas.PipeFrame
 import MosVerif.Generated.Facts
 namespace MosVerif.C05
 open MosVerif.Pipeline
@@ -220,6 +221,41 @@ theorem script_model_sound (cids : List (Nat × Nat)) (pre : Nat) (tcp : Bool) (
          mono_exec hi (by intro c; simp [scriptInit, assignedIds]) steps,
          (ginv_exec hi hg steps).tk_inj⟩
 
+/-! ### framing: a `srvReply` step is a whole frame the server sent
+
+  The step model takes for granted that what the read loop dispatches (`srvReply c id p`) is a message
+  the server sent. On a pipelined TCP/DoT connection that is a property of the read loop's framing
+  (Model/PipeFrame.lean): for every list of frames, every way the network cuts their bytes into chunks
+  and every placement of read errors (deadline = idle timeout, also in the middle of a frame): -/
+
+/-- ★ the messages dispatched are a prefix of the frames the server sent — never something
+    reconstructed from the inside of a frame — … -/
+theorem frames_dispatched_prefix (frames : List PipeFrame.Bytes) (evs : List PipeFrame.REv)
+    (h : PipeFrame.received evs <+: PipeFrame.stream frames) : (PipeFrame.run {} evs).out <+: frames := by
+  have h0 : PipeFrame.Inv frames [] {} := by
+    show PipeFrame.Good frames [] [] []
+    exact ⟨0, rfl, Nat.zero_le _, rfl⟩
+  have := PipeFrame.run_inv frames evs [] {} h0 (by simpa using h)
+  exact PipeFrame.inv_out_prefix this
+
+/-- … and after a read error the loop never dispatches anything again (it does not resume reading,
+    in particular not at a non-frame boundary). -/
+theorem no_dispatch_after_read_error (evs1 evs2 : List PipeFrame.REv) :
+    (PipeFrame.run {} (evs1 ++ .readErr :: evs2)).out = (PipeFrame.run {} evs1).out := by
+  have e : PipeFrame.run {} (evs1 ++ .readErr :: evs2) =
+      PipeFrame.run (PipeFrame.rstep (PipeFrame.run {} evs1) .readErr) evs2 := by
+    simp [PipeFrame.run, List.foldl_append]
+  rw [e, (PipeFrame.closed_run _ (by simp [PipeFrame.rstep]) evs2).2]
+  rfl
+
+/-- non-vacuity: a loop that goes on reading after a deadline error inside a frame (`rstepResume`)
+    dispatches a message the server never sent: here the frame `[9,9,0,1,7]`, cut after its fourth
+    byte, makes it dispatch `[7]`. -/
+example : (([PipeFrame.REv.recv [0, 5, 9, 9], .readErr, .recv [0, 1, 7]] : List PipeFrame.REv).foldl
+    PipeFrame.rstepResume {}).out = [[7]] := by decide
+example : (PipeFrame.run {} [.recv [0, 5, 9, 9], .readErr, .recv [0, 1, 7]]).out = [] := by decide
+example : (PipeFrame.run {} [.recv [0, 5, 9], .recv [9, 0, 1, 7, 0, 1], .recv [4]]).out = [[9, 9, 0, 1, 7], [4]] := by decide
+
 /-! ### non-vacuity -/
 
 section examples
@@ -263,7 +299,7 @@ end examples
 
 /-- tie (pinned source facts): the end-of-life test, the `uint16` conversion and increment, the map
     operations keyed by the wire id, channel capacity 1, the non-blocking send with `default`, the
-    deferred delete, the ID restore from the caller's bytes, where `setQid` writes. -/
+    deferred delete, the ID restore from the caller's bytes, where `setQid` writes, close-on-read-error. -/
 theorem pins :
     Facts.pipe_eolCond = "c.nextQid > 65535" ∧
     Facts.pipe_qidConv = "qid := uint16(c.nextQid)" ∧
@@ -284,5 +320,11 @@ theorem pins :
     Facts.pipe_setQidBody = "binary.BigEndian.PutUint16(payload[off:], qid)" ∧
     Facts.pipe_statusAvail = "s.Available = c.nextQid+c.reserved <= 65535" ∧
     Facts.pipe_reserveCond = "c.nextQid+c.reserved < 65535" := by decide
+
+/-- tie: every read error ends the read loop with the connection closed (`closeWithErr … return`); the only
+    `continue`s of the loop are the two of the datagram branch. -/
+theorem pins_read_error_closes :
+    Facts.pipe_readErrClose = "if err != nil { if errors.Is(err, os.ErrDeadlineExceeded) { err = ErrIdleTimeOut } c.closeWithErr(fmt.Errorf(\"read err, %w\", err)) return }" ∧
+    Facts.pipe_readLoopContinues = 2 := ⟨rfl, rfl⟩
 
 end MosVerif.C05
